@@ -22,6 +22,13 @@ def one(d):
     prop = meta["property"]
     wt = tempfile.mkdtemp(prefix="sd_", dir="/tmp/wt"); os.rmdir(wt)
     res = {"dir": d, "property": prop}
+    if NOSUITE and os.path.exists(d + "/result.json"):          # keep the suite verdict of an earlier full evaluation
+        try:
+            old = json.load(open(d + "/result.json"))
+            if "suite_missing" in old:
+                res["suite_missing"] = old["suite_missing"]
+        except Exception:
+            pass
     try:
         sh(f"{VERIF}/tools_mkwt.sh {wt}")
         env = dict(os.environ, PYTHONPATH=wt, OMP_NUM_THREADS="1", MDTRAJ_SRC=wt)
